@@ -13,14 +13,16 @@ pub fn run(cfg: &Config) -> i32 {
 		..Default::default()
 	};
 	let mut total = Report::new();
-	if let Err(m) = pf::selftest_reference(cfg) {
+	if cfg!(miri) {
+		total.note("oracle self-tests skipped under Miri (run by the native pass of the same invocation)");
+	} else if let Err(m) = pf::selftest_reference(cfg) {
 		total.inconclusive.push(format!("oracle self-test failed: {}", m))
 	}
 	let mut add = |total: &mut Report, (r, _): (Report, Vec<u8>)| total.merge(r);
 	let mut exhaustive_tables = false;
 	if cfg.san {
 		// reduced workload for Miri / ASan: numbers and strings around the 16-byte inline capacity
-		add(&mut total, pf::fam_generated(cfg, flags, cfg.budget(0, 0).max(300), false));
+		add(&mut total, pf::fam_generated(cfg, flags, cfg.budget(300_000, 8_000_000), false));
 		add(&mut total, pf::fam_valid_token_docs(cfg, flags, 4));
 	} else {
 		add(&mut total, pf::fam_escape_tables(cfg, flags));
